@@ -214,19 +214,24 @@ def enumeration_handmade():
             # an environment without variables whose action is a state predicate (closed system)
             (dict(), dict(c=(0, 3), b='bool'), r'(c < 2) \/ b', r"(c' = c + 1 \/ c' = 0) /\ (b' <=> b)", 'TRUE', r'(c = 0) /\ ~ b'),
             (dict(), dict(y=(0, 2)), 'y # 2', "y' # y", 'TRUE', 'y = 0'),
+            # all-negative domains
+            (dict(x=(-3, -1)), dict(z=(-2, -1)), "x' # x", r"(z' = -1) \/ (x = -2 /\ z' = z)", 'x = -3', 'z = -2'),
+            # a component without variables
+            (dict(x=(0, 2)), dict(), "(x' = x + 1) \/ (x = 2 /\ x' = 0)", 'TRUE', 'x < 2', 'TRUE'),
         ]
         elog = logging.getLogger('omega.games.enumeration')
         for de, ds, ea, sa, ei, si in cases:
             for moore in (True, False):
                 for qinit in (r'\A \A', r'\E \E', r'\A \E', r'\E \A'):
-                    for variant in ('plain', 'debug-logging', 'role-keys-swapped'):
+                    for variant in ('plain', 'debug-logging', 'role-keys-swapped', 'qinit-positional'):
                         if variant != 'plain' and moore:
                             continue
                         n += 1
                         aut = trl.Automaton()
                         if de:
                             aut.declare_variables(**de)
-                        aut.declare_variables(**ds)
+                        if ds:
+                            aut.declare_variables(**ds)
                         ek, sk = ('env', 'impl') if variant != 'role-keys-swapped' else ('sys', 'env')
                         # role-keys-swapped: the inputs are stored under the key 'sys', the component under 'env'
                         aut.varlist = {ek: list(de), sk: list(ds)}
@@ -249,7 +254,10 @@ def enumeration_handmade():
                             if not elog.handlers:
                                 elog.addHandler(logging.NullHandler())
                         try:
-                            g = ge.action_to_steps(aut, ek, sk, qinit=qinit)
+                            if variant == 'qinit-positional':
+                                g = ge.action_to_steps(aut, ek, sk, qinit)
+                            else:
+                                g = ge.action_to_steps(aut, ek, sk, qinit=qinit)
                         except AssertionError as e:
                             fails.append(dict(name='enumeration runs', error=repr(e)[:200], qinit=qinit, variant=variant))
                             continue
@@ -272,6 +280,8 @@ def enumeration_handmade():
                         # its place: the graph must be that of the implementation
                         # present at call time (no state kept between calls)
                         n += 1
+                        if not ds:
+                            continue
                         frame = ' /\\ '.join(
                             (f"({v}' <=> {v})" if ds[v] == 'bool' else f"({v}' = {v})") for v in ds)
                         aut.action['impl'] = aut.action['sys'] = frame
